@@ -14,8 +14,8 @@ import sys
 from .common import LEAN, SRC, add_failure, bump, new_outcome
 
 PROP = "C12"
-PROPS_FILES = ["CogentModel/Props/C12.lean", "CogentModel/Props/C12Gen.lean"]
-LEAN_TARGETS = ["CogentModel.Props.C12", "CogentModel.Props.C12Gen"]
+PROPS_FILES = ["CogentModel/Props/C12.lean", "CogentModel/Props/C12Gen.lean", "CogentModel/Props/C12State.lean"]
+LEAN_TARGETS = ["CogentModel.Props.C12", "CogentModel.Props.C12Gen", "CogentModel.Props.C12State"]
 DRIVER = "drv_c12"
 TRUSTED = [
     "translator/c12_code2lean.py (python ast -> Lean for genetic_code / new_genetic_code translate, sixframes, __getitem__, is_stop, "
@@ -607,6 +607,10 @@ def correspondence(ctx):
             if isinstance(real, dict):
                 bump(out, "errors", real["err"])
     _corr_generated(ctx, out, drv, rng, both)
+    # 11. derived-state model of new-style collections (stored rows + reversed flags) vs the real class
+    from . import c12_state
+
+    c12_state.corr_collstate(ctx, out, drv, ctx.subrng("collstate"), both)
     return out
 
 
